@@ -39,40 +39,59 @@ let pf_of_target t =
   let rec find i = if i > 11 then -1 else if layout_of_pf (z_of_int i) = Some t then i else find (i + 1) in
   find 0
 
+(* tj3LoadImage<bits> with TJPARAM_PRECISION = prec: the extracted acceptance rule (model/ImgEntry.v)
+   decides whether a reader is created and with which data precision *)
+let do_load bits prec pf bu maxpix hex =
+  let bytes = unhex hex in
+  match bytes with
+  | [] -> print_endline "err EMPTY"
+  | c :: _ ->
+    let f = tj_fmt c in
+    (match f, tj_load_dp (z_of_int bits) (z_of_int prec) f with
+     | FUnknown, _ -> print_endline "err UNSUPPORTED"
+     | _, None -> print_endline "err BADPREC"
+     | FBmp, Some _ ->
+       let want = if pf < 0 then None else layout_of_pf (z_of_int pf) in
+       let mp = z_of_int maxpix in
+       let huge = (match bmp_header mp want bytes with
+                   | BOk (hd, _) -> int_of_z hd.b_w * int_of_z hd.b_h > 16777216 || int_of_z hd.b_w > 4194304
+                   | BErr _ -> false) in
+       if huge then print_endline "skip huge" else
+       (match load_bmp rgb_to_cmyk mp want bu bytes with
+        | BErr e -> print_endline ("err " ^ berr_name e)
+        | BOk (((w, h), t), rows) ->
+          let b = Buffer.create 4096 in
+          Buffer.add_string b (Printf.sprintf "ok %d %d %d |" (int_of_z w) (int_of_z h) (pf_of_target t));
+          List.iter (fun row -> List.iter (fun v -> Buffer.add_char b ' '; Buffer.add_string b (string_of_int (int_of_z v))) row) rows;
+          print_endline (Buffer.contents b))
+     | _, Some dp ->
+       let want = if pf < 0 then None else layout_of_pf (z_of_int pf) in
+       (match load_pnm rgb_to_cmyk look_fn dp (z_of_int maxpix) want bu bytes with
+        | Err e -> print_endline ("err " ^ err_name e)
+        | Ok (((w, h), t), rows) ->
+          let b = Buffer.create 4096 in
+          Buffer.add_string b (Printf.sprintf "ok %d %d %d |" (int_of_z w) (int_of_z h) (pf_of_target t));
+          List.iter (fun row -> List.iter (fun v -> Buffer.add_char b ' '; Buffer.add_string b (string_of_int (int_of_z v))) row) rows;
+          print_endline (Buffer.contents b)))
+
 let () = iter_lines (fun line ->
   match words line with
   | "load" :: prec :: pf :: bu :: _align :: maxpix :: rest ->
-      let hex = (match rest with h :: _ -> h | [] -> "") in
-      let bytes = unhex hex in
-      let pf = int_of_string pf in
-      (match bytes with
-       | [] -> print_endline "err EMPTY"
-       | c :: _ when int_of_z c = 66 && int_of_string prec > 8 -> print_endline "err BADPREC"   (* jinit_read_bmp: 8-bit only *)
-       | c :: _ when int_of_z c = 66 ->
-         let want = if pf < 0 then None else layout_of_pf (z_of_int pf) in
-         let mp = z_of_int (int_of_string maxpix) in
-         let huge = (match bmp_header mp want bytes with
-                     | BOk (hd, _) -> int_of_z hd.b_w * int_of_z hd.b_h > 16777216 || int_of_z hd.b_w > 4194304
-                     | BErr _ -> false) in
-         if huge then print_endline "skip huge" else
-         (match load_bmp rgb_to_cmyk mp want (bu = "1") bytes with
-          | BErr e -> print_endline ("err " ^ berr_name e)
-          | BOk (((w, h), t), rows) ->
-            let b = Buffer.create 4096 in
-            Buffer.add_string b (Printf.sprintf "ok %d %d %d |" (int_of_z w) (int_of_z h) (pf_of_target t));
-            List.iter (fun row -> List.iter (fun v -> Buffer.add_char b ' '; Buffer.add_string b (string_of_int (int_of_z v))) row) rows;
-            print_endline (Buffer.contents b))
-       | c :: _ when int_of_z c <> 80 -> print_endline "err UNSUPPORTED"
-       | _ ->
-         let want = if pf < 0 then None else layout_of_pf (z_of_int pf) in
-         (match load_pnm rgb_to_cmyk look_fn (z_of_int (int_of_string prec)) (z_of_int (int_of_string maxpix))
-                  want (bu = "1") bytes with
-          | Err e -> print_endline ("err " ^ err_name e)
-          | Ok (((w, h), t), rows) ->
-            let b = Buffer.create 4096 in
-            Buffer.add_string b (Printf.sprintf "ok %d %d %d |" (int_of_z w) (int_of_z h) (pf_of_target t));
-            List.iter (fun row -> List.iter (fun v -> Buffer.add_char b ' '; Buffer.add_string b (string_of_int (int_of_z v))) row) rows;
-            print_endline (Buffer.contents b)))
+      let prec = int_of_string prec in
+      do_load (if prec <= 8 then 8 else if prec <= 12 then 12 else 16) prec (int_of_string pf) (bu = "1") (int_of_string maxpix)
+        (match rest with h :: _ -> h | [] -> "")
+  | "loadx" :: bits :: prec :: pf :: bu :: _align :: maxpix :: rest ->
+      do_load (int_of_string bits) (int_of_string prec) (int_of_string pf) (bu = "1") (int_of_string maxpix)
+        (match rest with h :: _ -> h | [] -> "")
+  | "cjx" :: _maxpix :: targa :: prec :: rest ->
+      (* only the precision verdict of the reader selection is predicted *)
+      (match unhex (match rest with h :: _ -> h | [] -> "") with
+       | [] -> print_endline "cjx EMPTY"
+       | c :: _ ->
+         let f = cj_fmt (targa = "1") c in
+         if f = FUnknown then print_endline "cjx UNKNOWN"
+         else if cj_accepts f (z_of_int (int_of_string prec)) then print_endline "cjx PASS"
+         else print_endline "cjx BADPREC")
   | "save" :: prec :: pf :: bu :: _pad :: ext :: w :: h :: "|" :: samples ->
       begin
         let pf = int_of_string pf and w = int_of_string w and h = int_of_string h in
